@@ -1,4 +1,5 @@
 import Aurora.Lemmas.Subscribe
+import Aurora.Generated.SubscribeCow
 /-!
 # C40 — Subscribers get every later message and none after leaving
 
@@ -94,6 +95,108 @@ theorem C40_full (acts : List Act) (n : Notifier)
   rw [hn] at this
   exact h1 _ this
 
+/-! ### a `Publish` parked inside a slow consumer: copy-on-write
+
+`Publish` holds no lock while it ranges over a key's list, so an unsubscription (or a subscription)
+can be processed while a publisher is blocked in a `Notify` call in the middle of the list.  The
+model (`pubUntilParked` / `pubResume`) lets the released publisher go on over the list *it loaded*.
+That rests on one discipline of subscribe.go — nothing overwrites a cell of a slice that was loaded
+from `keyToNotifier` — which the extractor reads off the source on every run
+(`Aurora/Generated/SubscribeCow.lean`, harness/cmd/extract/subscribe_cow.go). -/
+
+section Cow
+open Aurora.Generated.SubscribeCow
+
+/-- the extracted tables say: `process` stores a slice, every slice it stores was made in `process`
+    itself (`make`) and filled by a `copy` from the loaded one; no `append(b[i:j], …)`, `copy(b, …)`
+    or `b[i] = …` anywhere in the package has a loaded slice as `b`; every slice stored into the map
+    is either fresh or a loaded one extended at its tail -/
+def cowHolds : Bool :=
+  (stores.any (fun s => s.fn == "subPub.process")) &&
+  (stores.all (fun s => s.fn != "subPub.process" || decide (s.val = .fresh))) &&
+  (copies.any (fun c => c.fn == "subPub.process" && decide (c.dst = .fresh) && decide (c.src = .loaded))) &&
+  (writes.all (fun w => decide (w.base ≠ .loaded) || decide (w.kind = .tail))) &&
+  (stores.all (fun s => decide (s.val ≠ .other)))
+
+/-- **static obligation** (by evaluation of the regenerated tables): the removal in `process`
+    operates on a fresh copy — the slice stored back with `Store` is not an alias of the loaded
+    one — and this is exactly the copy semantics the model assumes
+    (`processRemovesOnFreshCopy`).  The seeded change C40-2 (`cSlice := v.([]*subInfo)` instead of
+    `make`+`copy`) yields `⟨"subPub.process", _, .shift, .loaded⟩` / `⟨"subPub.process", _, .loaded⟩`
+    and this fails. -/
+theorem C40_removal_on_fresh_copy :
+    cowHolds = true ∧ processRemovesOnFreshCopy = cowHolds := by
+  decide
+
+end Cow
+
+/-- **A list published before an unsubscription is processed is not changed by it** (clause
+    "receives, in publication order, every message published after its registration took effect",
+    for a publish that overlaps an unsubscription).  Memory level, with the model's copy semantics
+    (`processRemovesOnFreshCopy`, tied to the code by `C40_removal_on_fresh_copy`): whatever slice
+    value `p` a publisher holds (any array that exists, any length), ranging over it yields the
+    same notifiers after `process` has handled an unsubscription of `x` on the loaded slice `s` —
+    also when `p = s` —, and the slice `process` stores holds `s` without `x`, which is what the
+    table-level `removeAll` says. -/
+theorem C40_publish_snapshot_isolated (m : Arrays) (s p : Slice) (x : Notifier)
+    (hp : p.arr < m.length) :
+    view (unsubMem processRemovesOnFreshCopy m s x).1 p = view m p ∧
+    view (unsubMem processRemovesOnFreshCopy m s x).1 (unsubMem processRemovesOnFreshCopy m s x).2 =
+      (view m s).filter (fun y => y ≠ x) := by
+  simp only [unsubMem, processRemovesOnFreshCopy, if_true]
+  exact ⟨view_append_lt m _ p hp, view_append_new m _⟩
+
+/-- The same for a subscription that is processed meanwhile: `append(slice, &info)` writes cell
+    `len` of the loaded slice's array or a new array, so a held slice value that is not longer than
+    the (valid: `hv`) loaded one (`hmono`: slice values of one array are published with growing lengths, which
+    holds as long as removals go to fresh arrays) still yields the same notifiers. -/
+theorem C40_publish_snapshot_isolated_add (room : Bool) (m : Arrays) (s p : Slice) (x : Notifier)
+    (hp : p.arr < m.length) (hv : s.len ≤ (m.getD s.arr []).length)
+    (hmono : p.arr = s.arr → p.len ≤ s.len) :
+    view (addMem room m s x).1 p = view m p := by
+  unfold addMem
+  cases room
+  · exact view_append_lt m _ p hp
+  · simp only [if_true]
+    unfold view
+    by_cases h : p.arr = s.arr
+    · have hl := hmono h
+      have hs : s.arr < m.length := h ▸ hp
+      rw [h]
+      simp only [List.getD, List.getElem?_set_self hs, Option.getD_some]
+      rw [List.append_assoc, List.take_append_of_le_length]
+      · rw [List.take_take, Nat.min_eq_left hl]
+      · rw [List.length_take]
+        simp only [List.getD] at hv
+        omega
+    · simp only [List.getD, List.getElem?_set_ne (Ne.symm h)]
+
+/-- **A parked publish loses nobody and repeats nobody.**  Run `Publish(keys, m)` until it blocks
+    in the first `Notify` call to `slow`, let `process` do anything meanwhile (`t'` is the table
+    afterwards), release it: the calls made are the calls of the snapshot — for the key it was
+    parked in and all earlier keys exactly the lists of `t` in list order, each entry once — followed
+    by the lists the later keys have in `t'`.  In particular with `t' = t` parking changes nothing. -/
+theorem C40_parked_publish_complete (t : Table) (m : Msg) (slow : Notifier) (keys : List Key) :
+    (pubUntilParked t m slow keys).1 ++
+      (match (pubUntilParked t m slow keys).2 with
+       | none => []
+       | some p => pubResume t m p) = deliveries t keys m :=
+  pubUntilParked_complete t m slow keys
+
+/-- Why the copy matters (the seeded change C40-2, confirmed on the real code by the `pubduring`
+    replay): with the removal loop running on the loaded slice itself, the list `[a, b, c]` a
+    publisher is ranging over becomes `[b, c, c]` when `a` leaves; the publisher, blocked in
+    `a.Notify` (index 0), goes on with `c, c` — `b` misses the message, `c` gets it twice — while
+    the copying version leaves `b, c` to be notified. -/
+theorem C40_inplace_removal_counterexample :
+    let m : Arrays := [["a", "b", "c"]]
+    let s : Slice := ⟨0, 3⟩
+    view (unsubMem false m s "a").1 s = ["b", "c", "c"] ∧
+    (view (unsubMem false m s "a").1 s).drop 1 = ["c", "c"] ∧
+    (view (unsubMem true m s "a").1 s).drop 1 = ["b", "c"] ∧
+    view (unsubMem false m s "a").1 (unsubMem false m s "a").2 = ["b", "c"] := by
+  decide
+
 /-! ### non-vacuity -/
 
 example : Quiescent (run init [.subscribe "n" "k", .processSub, .subscribe "n" "k", .processSub,
@@ -109,6 +212,13 @@ example : NoUnsub "k" "n" (run init [.subscribe "n" "k", .processSub])
 example : (run init [.subscribe "n" "a_k", .subscribe "m" "a_k_p", .processSub, .processSub,
     .publish (pubKeys "a" "k" "p") "x"]).log = [⟨"n", "a_k", "x"⟩, ⟨"m", "a_k_p", "x"⟩] := by
   decide
+
+example : pubUntilParked [("a_k", ["n0", "n1", "n2"])] "m" "n1" ["a_k", "a_k_p"] =
+    ([⟨"n0", "a_k", "m"⟩, ⟨"n1", "a_k", "m"⟩], some ⟨[⟨"n2", "a_k", "m"⟩], ["a_k_p"]⟩) := by
+  decide
+
+example : (2 : Nat) < ([["a"], ["b"], ["c", "d"]] : Arrays).length ∧
+    view [["a"], ["b"], ["c", "d"]] ⟨2, 1⟩ = ["c"] := by decide
 
 /-! ### history: the code before the repairs violated the property (both confirmed on the real code) -/
 
